@@ -23,3 +23,11 @@ impl Clone for options::Value {
           _ => false,
       }
 //@ end
+
+//@ fn cln_plugin::Builder::handle_init#store
+//@ implicit [C19]
+//@ ensures#the_value_is_stored_under_exactly_the_options_own_name [C19,C04,C11,C12]
+//    what ConfiguredPlugin::option reads back (unit optread): this option's entry is the value just
+//    computed, every other option's entry is untouched
+      final(self).option_values@ == old(self).option_values@.insert(name@, option_value)
+//@ end
